@@ -516,5 +516,5 @@ def extra_coverage(tier):
                                       % (N_SWEEP, OS_SWEEP, N_SWEEP * len(OS_SWEEP))]}
 
 
-PARTS = [Part("nufft", check_case, {"quick": 3000, "thorough": 80000}, strategy=st_case),
+PARTS = [Part("nufft", check_case, {"quick": 6000, "thorough": 80000}, strategy=st_case),
          Part("sizes", check_sizes, {"quick": 48, "thorough": 48}, strategy=st_sizes, max_shards=1)]
